@@ -182,7 +182,7 @@ pub fn replay(v: &Value) -> Outcome {
 
 pub fn run(env: &Env, known: &Known, started: Instant, replayed: u64, replay_violations: Vec<Violation>) -> i32 {
     verify_catalogue();
-    let cfg = ChoiceRun { env, pid: PID, part: "in-process", cases: env.tier.pick(6_000, 150_000), max_len: 1500, known };
+    let cfg = ChoiceRun { env, pid: PID, part: "in-process", cases: env.tier.pick(12_000, 150_000), max_len: 1500, known };
     let mut rr = run_choices(&cfg, run_case);
     // fresh processes on a sample
     let n_cli = env.tier.pick(96, 1500);
